@@ -85,6 +85,16 @@ func (p *Path) Eval(v ssa.Value) (val, ok bool) {
 			}
 		}
 	case *ssa.BinOp:
+		switch x.Op {
+		case token.LSS, token.LEQ, token.GTR, token.GEQ:
+			// ordered comparison of two constants
+			ca, aok := p.Resolve(x.X).(*ssa.Const)
+			cb, bok := p.Resolve(x.Y).(*ssa.Const)
+			if aok && bok && ca.Value != nil && cb.Value != nil && ca.Value.Kind() == cb.Value.Kind() &&
+				(ca.Value.Kind() == constant.Int || ca.Value.Kind() == constant.Float || ca.Value.Kind() == constant.String) {
+				return constant.Compare(ca.Value, x.Op, cb.Value), true
+			}
+		}
 		if x.Op == token.EQL || x.Op == token.NEQ {
 			a, b := p.Resolve(x.X), p.Resolve(x.Y)
 			ca, aok := a.(*ssa.Const)
